@@ -118,6 +118,8 @@ fn random_replacement(np: usize, no: usize, mu: u32) {
     assert!(res.len() == want, "RandomReplacement: result size is not min(mu, total)");
     sub_multiset(&res, &p0, &o0);
 }
-/// @verif anchor=RandomReplacement::replace tier=thorough bound="1 parent, 1 offspring; mu in 0..3; symbolic RNG"
-#[cfg_attr(kani, kani::proof)] #[cfg_attr(kani, kani::unwind(8))]
-pub fn c12_random_1_1() { random_replacement(1, 1, 0); random_replacement(1, 1, 1); random_replacement(1, 1, 2); random_replacement(1, 1, 3); }
+// NOT a registered harness (no @verif tag): `shuffle` draws with rand's rejection sampling, whose loop over a symbolic generator has
+// no bound, so the unwinding assertion can never be discharged (measured in the thorough run).  RandomReplacement::replace is
+// decided unboundedly by the Verus unit `simple_ops` and its driver-level behaviour by the bounded Kani/native units.
+#[allow(dead_code)]
+pub fn c12_random_1_1_unregistered() { random_replacement(1, 1, 0); random_replacement(1, 1, 1); random_replacement(1, 1, 2); random_replacement(1, 1, 3); }
